@@ -14,14 +14,17 @@ Open Scope float_scope.
 Inductive cop := CSum | CMin | CMax.
 Definition init (o : cop) : float := match o with CSum => zero | _ => nan end.
 
-(* ScalarFuncs.sum / nansum / min / nanmin / max / nanmax on (current, next, count) *)
+(* ScalarFuncs.sum / nansum / min / nanmin / max / nanmax on (current, next, count); the non-skipping min / max count a null
+   and keep it from there on *)
 Definition scalar (o : cop) (skipna : bool) (cur x : float) (cnt : nat) : float * nat :=
   match o with
   | CSum => if skipna && is_nan x then (cur, cnt) else match cnt with O => (x, 1%nat) | _ => (cur + x, S cnt) end
-  | CMin => if is_nan x then ((if skipna then cur else x), cnt) else
-            match cnt with O => (x, 1%nat) | _ => ((if x <? cur then x else cur), S cnt) end
-  | CMax => if is_nan x then ((if skipna then cur else x), cnt) else
-            match cnt with O => (x, 1%nat) | _ => ((if cur <? x then x else cur), S cnt) end
+  | CMin => if is_nan x then (if skipna then (cur, cnt) else (x, S cnt)) else
+            match cnt with O => (x, 1%nat)
+            | _ => if negb skipna && is_nan cur then (cur, S cnt) else ((if x <? cur then x else cur), S cnt) end
+  | CMax => if is_nan x then (if skipna then (cur, cnt) else (x, S cnt)) else
+            match cnt with O => (x, 1%nat)
+            | _ => if negb skipna && is_nan cur then (cur, S cnt) else ((if cur <? x then x else cur), S cnt) end
   end.
 
 Definition gstate := Z -> float * nat * bool.       (* group code -> (latest output, count, reduced a row yet) *)
